@@ -13,7 +13,9 @@ C23 driver.  Stateful: the current proxy command tree and the player's permissio
                     (bk = every kept backend node still has the subtree it had before)
 
 `filter` and `merge` lines carry the current tree and permissions once more as trailing `@tree=…;… @perms=…`
-arguments (ignored here) so that a reported case is a complete replay.
+arguments (ignored here) so that a reported case is a complete replay.  `merge` lines with `@packet=k-on-one-backend-connection`
+are the k-th commands packet handled by ONE backendPlaySessionHandler (`@earlier-packets=` lists tree/permissions of
+the earlier ones): the spec judges each against the tree and permissions current at that packet.
 
 Spec verdict on the implementation's output: every proxy node received passes its requirement; proxy nodes replace
 backend nodes of the same name; all other backend nodes are kept exactly once and unchanged; nothing else appears.
@@ -69,11 +71,6 @@ structure DS where
 def allUsable (ds : DS) (ts : List Tok) : Bool :=
   (received ts).all fun id => id == 0 || (match ds.tree[id - 1]? with | some nd => usable ds.perms nd | none => false)
 
-/-- strip the outer `N0 … U` of the filtered root: the walks of its children -/
-def stripRoot : List Tok → List Tok
-  | .node 0 :: r => r.dropLast
-  | ts => ts
-
 def verdictMerge (ds : DS) (backend : List BNode) (impl : String) : String :=
   match impl.splitOn " sub=" with
   | [rootPart, rest] =>
@@ -124,10 +121,10 @@ def step (ds : DS) (c : Case) : DS × String × String :=
     match parseBackend b with
     | none => (ds, "bad-op", "-")
     | some backend =>
-      let root := merge backend (proxyRootChildren ds.tree ds.perms)
-      let out := match filter ds.tree ds.perms (fuelFor ds.tree) 0 with
-        | .ok ts => "root=" ++ (if root.isEmpty then "-" else ",".intercalate (root.map MNode.show)) ++
-            " sub=" ++ showToks (stripRoot ts) ++ " bk=1"
+      -- one step of a history; the handler keeps nothing between packets (`runHistory`)
+      let out := match (handlePacket () ⟨ds.tree, ds.perms, backend⟩).2 with
+        | .tree root sub => "root=" ++ (if root.isEmpty then "-" else ",".intercalate (root.map MNode.show)) ++
+            " sub=" ++ showToks sub ++ " bk=1"
         | .panicked => "panic"
         | .diverges => "diverges"
       (ds, out, if c.impl = "panic" then "ok" else verdictMerge ds backend c.impl)
